@@ -759,7 +759,7 @@ MODELS['std::cmp::PartialEq::eq'] = _eq_like(False)
 
 @model('std::ops::RangeInclusive::<Idx>::new')
 def _ri_new(eng, st, fr, t, args, dest, target):
-    return ('rangeincl', eng.force(st, args[0]), eng.force(st, args[1]))
+    return ('rangeincl', args[0], args[1])
 
 
 @model('std::ops::RangeInclusive::<Idx>::contains')
@@ -792,7 +792,7 @@ def _ri_end(eng, st, fr, t, args, dest, target):
 
 @model('<f64 as std::ops::Rem>::rem')
 def _f64_rem(eng, st, fr, t, args, dest, target):
-    return ('bin', 'Rem', eng.force(st, args[0]), eng.force(st, args[1]))
+    return ('bin', 'Rem', args[0], args[1])
 
 
 @model('std::clone::Clone::clone')
